@@ -47,19 +47,28 @@ RULE = ("cases come from one PRNG seeded by VERIF_SEED plus fixed catalogues: ev
         "mantissa boundaries; time differentials across both clamps. A case is non-trivial when its input is not "
         "empty; distinct = distinct (operation, input) pairs")
 CLAUSES = {
-    "merkle root = Bitcoin's (pairwise, last of odd levels duplicated)":
-        "proved relative to hash (merkleRoot_eq_levelRoot, levelRoot_eq_treeRoot, merkleRoot_idempotent)",
-    "tree sizing": "proved (tree_depth_ceil_log2, level_sizes); float form = finding F17a (fixed)",
-    "BIP37 completeness: built proof validates and yields exactly the matched ids in order":
-        "proved relative to hash (bip37_complete, populate_eq_extract, extract_build)",
-    "BIP37 soundness: a validating proof yields only ids of the block, or a hash256 collision is exhibited":
-        "proved relative to hash, collision extraction, total = |ids| (bip37_sound); forged total = finding F17b",
-    "altering a hash or the root makes validation fail": "consequence of soundness up to collisions; checked directly on the code",
-    "header hash / chain linkage": "proved (headersValid_iff; header codec in C19)",
-    "bits -> target": "partial(F17c): proved = SetCompact for exponent >= 3, sign clear (bitsToTarget_eq_setCompact)",
-    "target -> bits": "partial(F17d): proved = GetCompact for target >= 2^16 (targetToBits_eq_getCompact)",
-    "retargeting": "proved = CalculateNextWorkRequired under the same side conditions (calculateNewBits_eq_spec, retarget_clamp)",
-    "proof-of-work test": "partial(F17e): proved = CheckProofOfWork when hash != target and bits are in range (checkPow_eq_spec_of_ne)",
+    "merkle root = Bitcoin's (pairwise double-SHA256, last element of odd levels duplicated); calling it twice gives the same root":
+        "proved relative to hash (merkle_root_eq_spec, merkle_root_twice, merkle_root_empty, validate_merkle_root_eq)",
+    "tree sizing = integer ceil(log2 total)":
+        "proved (tree_depth_ceil_log2, tree_depth_eq_spec, level_sizes); float form = finding F17a, fixed (F17a_witness)",
+    "populate_tree (cursor machine, error branches) = BIP37 recursive parsing":
+        "proved relative to hash (populate_eq_spec, populate_never_out_of_fuel)",
+    "BIP37 completeness: for every block size and match set the built proof validates and yields exactly the matched ids in order":
+        "proved relative to hash (bip37_complete, bip37_complete_tree)",
+    "BIP37 soundness: any validating proof, honest or altered, yields only ids of the block":
+        "proved relative to hash as collision extraction, for total = number of transactions and 32-byte hashes "
+        "(bip37_sound, bip37_sound_merkleblock); partial(F17b): false for a forged total (F17b_witness)",
+    "altering any hash or the header root makes validation fail":
+        "proved relative to hash as collision extraction (bip37_altered_hash, bip37_altered_root); also evaluated directly on "
+        "the code for every single-bit alteration of sampled proofs",
+    "header hash, header-chain linkage": "proved relative to hash (header_hash_eq, headers_valid_iff); the 80-byte codec is C19",
+    "compact bits -> target": "partial(F17c): = SetCompact for exponent >= 3, clear sign bit, no overflow "
+                              "(bits_to_target_eq_SetCompact, bits_to_target_general, F17c_witness)",
+    "target -> compact bits": "partial(F17d): = GetCompact for 2^16 <= target < 2^256 (target_to_bits_eq_GetCompact, F17d_witness)",
+    "difficulty retargeting": "proved = CalculateNextWorkRequired under the side conditions of the two clauses above "
+                              "(retarget_clamp, calculate_new_bits_eq_spec, max_target_cap)",
+    "proof-of-work test": "partial(F17e): = CheckProofOfWork for in-range bits when hash != target "
+                          "(check_pow_eq, check_pow_eq_consensus_of_ne, F17e_witness)",
 }
 TRUSTED = ["hash256 is a parameter of every theorem; the driver instantiates it with Buidl.Model.Hash.SHA256 "
            "(checked against hashlib by harness/hash_selftest.py)",
@@ -68,7 +77,7 @@ TRUSTED = ["hash256 is a parameter of every theorem; the driver instantiates it 
 ASSUMPTIONS = ["list allocation succeeds (a forged transaction count of 2^31 makes MerkleTree allocate 2^32 list slots)",
                "int/float comparison in CPython is exact"]
 
-MAX_REAL_TOTAL = 1 << 16   # above this the real MerkleTree is only run under a memory limit, not compared
+MAX_REAL_TOTAL = 1 << 14   # above this the real MerkleTree is only run under a memory limit, not compared
 
 
 class UnknownOp(Exception):
@@ -173,12 +182,12 @@ def py_build(ids, matches):
 
 # ------------------------------------------------------------------------------- implementation side
 def _mem_limited(fn):
-    """run fn() with room for 8 MiB more address space (a forged count makes MerkleTree allocate `total` slots)"""
+    """run fn() with room for 2 MiB more address space (a forged count makes MerkleTree allocate `total` slots)"""
     soft, hard = resource.getrlimit(resource.RLIMIT_AS)
     try:
         with open("/proc/self/statm") as f:
             vm = int(f.read().split()[0]) * resource.getpagesize()
-        resource.setrlimit(resource.RLIMIT_AS, (vm + (8 << 20), hard))
+        resource.setrlimit(resource.RLIMIT_AS, (vm + (2 << 20), hard))
         return fn()
     finally:
         resource.setrlimit(resource.RLIMIT_AS, (soft, hard))
@@ -377,8 +386,9 @@ def p_bits_roundtrip(c):
 PREDICATES = {"sound": p_sound, "complete": p_complete, "root_twice": p_root_twice, "bits_roundtrip": p_bits_roundtrip}
 
 
-def eval_pred(kc):
-    kind, case = kc
+def eval_pred(kind, case=None):
+    if case is None:
+        kind, case = kind
     try:
         return PREDICATES[kind](case)
     except Exception as e:
@@ -799,6 +809,7 @@ def run(ctx):
     _dbg(ctx, f'{len(preds)} predicates evaluated')
     for (kind, case), (ok, got, want) in zip(preds, results):
         k = case.get("kind", kind)
+        rec.cov_pred(kind, case)
         if ok:
             rec.ok(k, repr(case)[:300])
             rec.sample(k, {kk: vv for kk, vv in case.items() if kk != "ids"}, limit=1)
